@@ -395,6 +395,42 @@ func TestVerifReplayLeafVariants(t *testing.T) {
 			}
 		}
 	}
+	// the value of an unchanged intent and the value the device runs are compared as values: two writings of one
+	// value (a decimal with another number of fraction digits, a value that carries a timestamp) are not a change
+	{
+		fnU := "(*tree.LeafVariants).highestIsUnequalRunning"
+		dec := func(digits int64, precision uint32) *sdcpb.TypedValue {
+			return &sdcpb.TypedValue{Value: &sdcpb.TypedValue_DecimalVal{DecimalVal: &sdcpb.Decimal64{Digits: digits, Precision: precision}}}
+		}
+		str := func(s string, ts uint64) *sdcpb.TypedValue {
+			return &sdcpb.TypedValue{Timestamp: ts, Value: &sdcpb.TypedValue_StringVal{StringVal: s}}
+		}
+		for _, c := range []struct {
+			name            string
+			intent, running *sdcpb.TypedValue
+			unequal         bool
+		}{
+			{"decimal 1.5 against 1.50", dec(15, 1), dec(150, 2), false},
+			{"decimal 1.5 against 1.6", dec(15, 1), dec(16, 1), true},
+			{"string with a timestamp against the same string without", str("x", 1700000000), str("x", 0), false},
+			{"string x against string y", str("x", 0), str("y", 0), true},
+			{"string x against string x", str("x", 0), str("x", 0), false},
+		} {
+			rep.cases[fnU]++
+			ib, _ := proto.Marshal(c.intent)
+			rb, _ := proto.Marshal(c.running)
+			lv := newLeafVariants(nil)
+			hi := &LeafEntry{Update: cache.NewUpdate([]string{"a", "b"}, ib, 10, "a", 0)}
+			lv.les = append(lv.les, hi, &LeafEntry{Update: cache.NewUpdate([]string{"a", "b"}, rb, RunningValuesPrio, RunningIntentName, 0)})
+			inp := fmt.Sprintf("intent a p10 holds %s, running holds the other writing", c.name)
+			if got := lv.highestIsUnequalRunning(hi); got != c.unequal {
+				rep.fail(fnU, "compares_values", inp, fmt.Sprintf("unequal to running=%v, expected %v", got, c.unequal))
+			}
+			if got := lv.GetHighestPrecedence(true, false); (got != nil) != c.unequal {
+				rep.fail("(*tree.LeafVariants).GetHighestPrecedence", "quiet", inp, fmt.Sprintf("onlyNewOrUpdated returns %v: an unchanged value is sent again only if it differs from what the device runs (%v)", got, c.unequal))
+			}
+		}
+	}
 	for fn, n := range rep.cases {
 		fmt.Printf("REPLAY-CASES fn=%s n=%d\n", fn, n)
 	}
